@@ -342,13 +342,18 @@ def normEKvs : EKvs → EKvs
 end
 
 mutual
-/-- `Ast.Format()` followed by the MRO parser (`BuildCallSource` then
-`InvocationDataFromSource`): structure and flags are kept, scalars go through
-the text printer and the lexer. -/
+/-- What `Ast.Format()` followed by the MRO parser (`BuildCallSource` then
+`InvocationDataFromSource`) returns, as a TREE function: structure and flags are
+kept – except that an empty struct literal prints as `{}`, which the grammar
+reads as an empty map –, scalars go through the text printer and the lexer.
+That this tree function IS printer ∘ lexer ∘ parser is a theorem
+(Proofs/InvocationText.lean `text_leg_exp`: `parseValExp (fmt [] (toF e))`, with
+the byte-exact models of C09, returns `toF`-image of `reparse e`); only
+strconv's 'g' text of a float enters as an explicit oracle. -/
 def reparse : Exp → Exp
   | .lit l => .lit (textLit l)
   | .arr xs => .arr (reparseList xs)
-  | .map k kvs => .map k (reparseKvs kvs)
+  | .map k kvs => .map (match kvs with | .nil => false | .cons _ _ _ => k) (reparseKvs kvs)
 def reparseList : EList → EList
   | .nil => .nil
   | .cons e r => .cons (reparse e) (reparseList r)
